@@ -1,5 +1,6 @@
 import PrysmVerif.Generated.C04
 import PrysmVerif.Lemmas.C04Defs
+import PrysmVerif.Lemmas.C04Rat
 import Mathlib.Tactic.Ring
 import Mathlib.Tactic.FieldSimp
 import Mathlib.Tactic.Linarith
@@ -491,24 +492,20 @@ theorem autocrop_is_crop_at_origin (n px : Int) : autocropLo0 (n / 2) (n / 2) px
   rw [(gen_autocrop _ _ _).1, (gen_crop n px).1]; simp only [Model.C04.autocropLo, Model.C04.cropLeft]
 
 /-- `estimate_size(data, dx=dx)` (fwhm, 1/e, 1/e²) measures radii on the vectors of `make_xy_grid(data.shape, dx, grid=False)`:
-x from the column count, y from the row count, zero on sample `n // 2` -/
+x from the column count, y from the row count, zero on sample `n // 2` (semantic: holds for `fftrange(s)*dx`,
+`(arange(s) - s//2)*dx`, `arange(-(s//2), s - s//2)*dx` and other equivalent spellings alike) -/
 theorem estimate_size_grid (m n : Int) (dx : Rat) (k : Int) :
     estSizeX m n dx k = vecX m n dx k ∧ estSizeY m n dx k = vecY m n dx k ∧
     estSizeX m n dx (n / 2) = 0 ∧ estSizeY m n dx (m / 2) = 0 := by
-  have he : ∀ s i, estSizeElem s i dx = ((i - s / 2 : Int) : Rat) * dx := by
-    intro s i
-    (try simp only [estSizeElem, Model.C04.gridElem, fftrange_sample, fftrange_sampleM]) <;> ring
   obtain ⟨_, _, hx, hy⟩ := grid_values m n dx k k
   have ex : ∀ k, estSizeX m n dx k = ((k - n / 2 : Int) : Rat) * dx := by
     intro k
-    first
-      | (simp only [estSizeX, he])
-      | (simp only [estSizeX, Model.C04.vecX, Model.C04.gridElem, fftrange_sampleM])
+    simp only [estSizeX, Model.C04.vecX, Model.C04.gridElem, fftrange_sample, fftrange_sampleM, rat_floor_half] <;>
+      (try push_cast) <;> (try ring)
   have ey : ∀ k, estSizeY m n dx k = ((k - m / 2 : Int) : Rat) * dx := by
     intro k
-    first
-      | (simp only [estSizeY, he])
-      | (simp only [estSizeY, Model.C04.vecY, Model.C04.gridElem, fftrange_sampleM])
+    simp only [estSizeY, Model.C04.vecY, Model.C04.gridElem, fftrange_sample, fftrange_sampleM, rat_floor_half] <;>
+      (try push_cast) <;> (try ring)
   refine ⟨by rw [ex, hx], by rw [ey, hy], ?_, ?_⟩
   · rw [ex]; simp
   · rw [ey]; simp
@@ -529,9 +526,11 @@ theorem support_axes (m n : Int) (dx : Rat) :
 
 /-- `fourier_resample`: the shift applied before the FFT brings the origin sample `n // 2` to FFT index 0, the one after
 it puts the zero-frequency bin on `n // 2` (the spectrum handed to the matrix DFT is centred), and axis `k` of the
-output has `int(shape[k] * zoom[k])` samples -/
-theorem resample_origin (n : Int) (hn : 1 ≤ n) (m' n' : Int) (z0 z1 : Rat) :
+output has `⌊shape[k] · zoom[k]⌋` samples (`int(..)` / `math.floor(..)` of a non-negative product, either factor order) -/
+theorem resample_origin (n : Int) (hn : 1 ≤ n) (m' n' : Int) (z0 z1 : Rat)
+    (h0 : 0 ≤ (m' : Rat) * z0) (h1 : 0 ≤ (n' : Rat) * z1) :
     Model.C04.rollSrc n (resamplePre n) 0 = n / 2 ∧ Model.C04.rollSrc n (resamplePost n) (n / 2) = 0 ∧
+    resampleOut0 m' n' z0 z1 = ((⌊(m' : Rat) * z0⌋ : Int) : Rat) ∧ resampleOut1 m' n' z0 z1 = ((⌊(n' : Rat) * z1⌋ : Int) : Rat) ∧
     resampleOut0 m' n' z0 z1 = Model.C04.resampleOut m' z0 ∧ resampleOut1 m' n' z0 z1 = Model.C04.resampleOut n' z1 := by
   have hb : npFftshiftBy n = n / 2 := (np_consts n).2.2.2
   have hi : npIfftshiftBy n = -(n / 2) := by
@@ -541,11 +540,28 @@ theorem resample_origin (n : Int) (hn : 1 ≤ n) (m' n' : Int) (z0 z1 : Rat) :
   have e1 : (0 - -(n / 2)) % n = n / 2 := by
     rw [zero_sub, neg_neg]; exact Int.emod_eq_of_lt (by omega) (by omega)
   have e2 : (n / 2 - n / 2) % n = 0 := by simp
-  refine ⟨?_, ?_, ?_, ?_⟩
+  have h0' : 0 ≤ z0 * (m' : Rat) := by rw [mul_comm]; exact h0
+  have h1' : 0 ≤ z1 * (n' : Rat) := by rw [mul_comm]; exact h1
+  have o0 : resampleOut0 m' n' z0 z1 = ((⌊(m' : Rat) * z0⌋ : Int) : Rat) := by
+    first
+      | (simp only [resampleOut0, Model.C04.resampleOut]; rw [pyTruncRat_nonneg _ h0])
+      | (simp only [resampleOut0]; rw [pyTruncRat_nonneg _ h0', mul_comm])
+      | (simp only [resampleOut0, Rat.floor_eq_intFloor])
+      | (simp only [resampleOut0, Rat.floor_eq_intFloor, mul_comm z0])
+  have o1 : resampleOut1 m' n' z0 z1 = ((⌊(n' : Rat) * z1⌋ : Int) : Rat) := by
+    first
+      | (simp only [resampleOut1, Model.C04.resampleOut]; rw [pyTruncRat_nonneg _ h1])
+      | (simp only [resampleOut1]; rw [pyTruncRat_nonneg _ h1', mul_comm])
+      | (simp only [resampleOut1, Rat.floor_eq_intFloor])
+      | (simp only [resampleOut1, Rat.floor_eq_intFloor, mul_comm z1])
+  refine ⟨?_, ?_, o0, o1, ?_, ?_⟩
   · simp only [resamplePre, Model.C04.rollSrc, hb, hi, hbM, hiM, e1, e2]
   · simp only [resamplePost, Model.C04.rollSrc, hb, hi, hbM, hiM, e1, e2]
-  · first | rfl | simp only [resampleOut0, Model.C04.resampleOut, mul_comm]
-  · first | rfl | simp only [resampleOut1, Model.C04.resampleOut, mul_comm]
+  · rw [o0]; simp only [Model.C04.resampleOut]; rw [pyTruncRat_nonneg _ h0]
+  · rw [o1]; simp only [Model.C04.resampleOut]; rw [pyTruncRat_nonneg _ h1]
+
+/-- the hypotheses of `resample_origin` hold for every positive zoom (here 9 × 3/2) -/
+example : (0 : Rat) ≤ ((9 : Int) : Rat) * (3 / 2) := by norm_num
 
 example : Model.C04.rollSrc 7 (resamplePre 7) 0 = 3 ∧ Model.C04.rollSrc 7 (resamplePost 7) 3 = 0 := by decide
 
@@ -618,5 +634,19 @@ theorem slices_follow_user_origin (am : (Int → Rat) → Int → Int) (ham : Is
 example : ∃ am, IsArgminAbs am ∧ (0 : Int) ≤ 2 ∧ (2 : Int) < 5 ∧ ((1 : Rat) / 2) ≠ 0 := by
   obtain ⟨am, h⟩ := isArgminAbs_exists
   exact ⟨am, h, by decide, by decide, by norm_num⟩
+
+/-! ## polar resampling: which array axis is rho -/
+
+/-- the polar array of `uniform_cart_to_polar` has phi along one axis and rho along the other (as laid out by its
+`meshgrid`), rho has `len(x)` and phi `len(y)` samples; every azimuthal statistic of `Slices` (`azavg`, `azmedian`,
+`azmin`, `azmax`, `azpv`, `azvar`, `azstd`) reduces over the phi axis, so its result pairs with the rho coordinates; and
+`estimate_size` searches (argmax, length, reversal) along the rho axis -/
+theorem polar_axes_consistent (m n : Int) :
+    polarRhoAxis ≠ polarPhiAxis ∧ (polarRhoAxis = 0 ∨ polarRhoAxis = 1) ∧ (polarPhiAxis = 0 ∨ polarPhiAxis = 1) ∧
+    polarRhoLen m n = n ∧ polarPhiLen m n = m ∧
+    azReduceAxes = List.replicate 7 polarPhiAxis ∧ estSizeAxes = List.replicate 3 polarRhoAxis ∧
+    polarRhoAxis = Model.C04.polarRhoAxis ∧ polarPhiAxis = Model.C04.polarPhiAxis := by
+  refine ⟨by decide, by decide, by decide, ?_, ?_, by decide, by decide, by decide, by decide⟩ <;>
+    (try simp only [polarRhoLen, polarPhiLen, Model.C04.polarRhoLen, Model.C04.polarPhiLen]) <;> omega
 
 end C04
